@@ -27,8 +27,8 @@ def c12_concurrent(rep, tier):
                                  ({"L1": [2, 3], "L2": [4]}, [1], [5], [1, 2]), ({"L": [2]}, [1], [], [1, 2, 3])]:
         two = len(th) > 1
         scs.append({"kind": "handover", "threads": th, "pre": pre, "post": post, "dests": dests, "max_pre": 1 if (quick and two) else 2,
-                    "cap": 350 if quick else 8000, "random": 80 if quick else 2000, "seed": rng.randint(0, 10 ** 9),
-                    "budget_s": 5 if quick else 150})
+                    "cap": 120 if quick else 8000, "random": 30 if quick else 2000, "seed": rng.randint(0, 10 ** 9),
+                    "budget_s": 60 if quick else 400})
     results = run_scenarios(scs)
     hs = [(res["scenario"], h) for res in results for h in res["runs"]]
     acc, st = tlc_accepts("HandoverA", "HandoverA.cfg", [h for _, h in hs])
@@ -59,7 +59,7 @@ def c06_once(rep, tier):
     scs = []
     for th, raises in [({"T1": 1, "T2": 1}, False), ({"T1": 1, "T2": 1, "T3": 1}, False), ({"T1": 2, "T2": 1}, True), ({"T1": 1, "T2": 2}, False)]:
         scs.append({"kind": "once", "threads": th, "raises": raises, "max_pre": 2 if len(th) == 2 else (1 if quick else 2),
-                    "cap": 400 if quick else 8000, "random": 60 if quick else 1500, "seed": rng.randint(0, 10 ** 9), "budget_s": 5 if quick else 120})
+                    "cap": 120 if quick else 8000, "random": 30 if quick else 1500, "seed": rng.randint(0, 10 ** 9), "budget_s": 60 if quick else 400})
     results = run_scenarios(scs)
     hs = [(res["scenario"], h) for res in results for h in res["runs"]]
     acc, st = tlc_accepts("OnceA", "OnceA.cfg", [h for _, h in hs])
